@@ -207,6 +207,11 @@ func runC06(c *mon.Ctx) {
 		m.run("cbor", "length-bomb:top-level:spare-capacity", inbuf)
 		// and behind a declared-but-empty tag / inside a one-entry map
 		m.run("cbor", "length-bomb:top-level:spare-capacity", append(append(big[:0], 0xa1, 0x01), raw...))
+		// behind tags of every head form: one-byte (immediate) tag numbers, 1/2/4/8-byte
+		// tag numbers, nested
+		for _, th := range [][]byte{{0xc1}, {0xc6}, {0xd7}, {0xd8, 0x3d}, {0xd9, 0xd9, 0xf7}, {0xda, 0x00, 0x01, 0x00, 0x00}, {0xdb, 0, 0, 0, 1, 0, 0, 0, 0}, {0xc1, 0xc2}, {0xd8, 0x3d, 0xc1}} {
+			m.run("cbor", "length-bomb:behind-tag", append(append([]byte{}, th...), raw...))
+		}
 		c.Sig("top|" + d)
 	})
 	// as the value of every known key of an otherwise valid token
